@@ -193,6 +193,12 @@ pub fn generate_live(prop: &str, seed: u64, tier: &str, out: &mut dyn std::io::W
             }
             if Rng::for_case(seed, 608, idx).chance(1, 2) {
                 targs.push("-L".to_string()); // the shared page below the executable: a principal mapping displaced by the entry-point swap
+                // … and a thread whose stack pointer lies in that lowest mapping (behind the executable in the mapping
+                // list once the entry point's mapping has been moved to the front)
+                if prop == "C06" && Rng::for_case(seed, 611, idx).chance(2, 3) {
+                    targs.push("-w".to_string());
+                    targs.push(format!("{}:{}", 2 + Rng::for_case(seed, 612, idx).below(20), 0x208f00u64));
+                }
             }
             let t = match Target::spawn(&targs) {
                 Ok(t) => t,
